@@ -7,23 +7,29 @@ import tgen
 PROP = "C07"
 LEVEL = "proof"
 GEN_UNITS = []
-COQ_TARGETS = ["Props/C07.vo", "Model/C07Harness.vo", "Model/Harness.vo"]
+COQ_TARGETS = ["Props/C07.vo", "Model/C07Harness.vo", "Model/C07Harness2.vo", "Model/Harness.vo"]
 THEOREM_FILES = ["Props/C07.v"]
 COQ_IMPORTS = ("From Coq Require Import List ZArith Bool.\n"
                "From PV Require Import Base.Index Base.Perm Np.Array Model.Sparse Model.Repr Model.Harness "
-               "Model.C07Ops Model.C07Harness.\n")
+               "Model.C07Ops Model.C07Harness Model.C07Ops2 Model.C07Harness2.\n")
 RULE = ("permute: all N! orders for N<=4 (seeded sample for N=5) on shapes with distinct sizes (2,3,4,5), repeated sizes and "
-        "singletons, for dense / sparse / Kruskal (rank 0..3) / Tucker (core <= 2x2x2x2, dense and sparse core) holders; reshape: "
-        "every ordered factorisation (factors >= 2, plus variants with inserted 1s) of every element count <= 48, dense and sparse; "
-        "sparse reshape of every non-empty mode subset (ascending and one shuffled order, also given as a bare int) for N<=4; "
-        "squeeze: every shape with <= 8 cells and <= 4 modes, sparsity {0,1,some,all}; a small malformed stream (non-permutations, "
-        "wrong element counts). non-trivial = more than one cell, at least one nonzero and not (identity order on a cubical shape)")
-EXPLANATION = ("Theorems (Props/C07.v) are over the hand-written model Model/C07Ops.v, for all N, shapes, orders and any value "
-               "type (Kruskal/Tucker: any commutative ring). The correspondence stream runs pyttb and the model on the same "
-               "inputs and compares shape, denotation at every subscript, well-formedness and nnz in Coq.")
-CORRESPONDENCE_ONLY = ["ttensor.permute with a sparse core (theorem covers the dense-core representation; the sparse core is "
-                       "observed through its raw coordinate list and expanded by the harness)"]
-ASSUMPTIONS = ["numpy transpose / F-order reshape / squeeze semantics as defined in Np/Array.v (np_transpose, np_reshapeF)"]
+        "singletons, for dense / sparse / Kruskal (rank 0..3) / Tucker with a dense core / Tucker with a sparse core (core <= "
+        "2x2x2x2, stored order sorted|reversed|random, empty core included) holders; reshape: every ordered factorisation "
+        "(factors >= 2, plus variants with inserted 1s) of every element count <= 48, dense and sparse; sparse reshape of every "
+        "non-empty mode subset (ascending and one shuffled order; single modes also as the documented bare int) for N<=4, each "
+        "also as the round trip reshape ; reshape-back ; permute(argsort(keep ++ old)) and against the dense route "
+        "permute(keep ++ old) ; reshape on the same data; reshape / squeeze through full() of Kruskal and Tucker (dense and sparse "
+        "core) holders; squeeze: every shape with <= 8 cells and <= 4 modes, sparsity {0,1,some,all} (so every all-singleton "
+        "shape occurs with nothing stored); a small malformed stream (non-permutations, wrong element counts). non-trivial = "
+        "more than one cell, at least one nonzero and not (identity order on a cubical shape)")
+EXPLANATION = ("Theorems (Props/C07.v) are over the hand-written models Model/C07Ops.v and Model/C07Ops2.v, for all N, shapes, "
+               "orders and any value type (Kruskal/Tucker: any commutative ring). The correspondence stream runs pyttb and the "
+               "model on the same inputs and compares shape, denotation at every subscript, well-formedness and nnz in Coq.")
+CORRESPONDENCE_ONLY = []
+ASSUMPTIONS = ["numpy transpose / F-order reshape / squeeze semantics as defined in Np/Array.v (np_transpose, np_reshapeF)",
+               "ktensor.full / ttensor.full compute tabulate(shape, den) (proved for pyttb's algorithms under C01); C07 only "
+               "uses them to route Kruskal / Tucker holders to tensor.reshape / tensor.squeeze, which pyttb does not offer on "
+               "ktensor / ttensor"]
 
 
 # ---------------------------------------------------------------------------------------- generators
@@ -96,9 +102,15 @@ def gen_cases(rng, tier):
             cases.append(Case("permute_k", {"shape": shp, "K": K, "p": p}, nt and R > 0))
             cshape = [rng.randint(1, 2) for _ in shp]
             core = tgen.rand_dense(rng, cshape, rng.choice([0.5, 1.0]))
-            T = {"cshape": cshape, "core": core, "factors": [rand_matrix(rng, d, c) for d, c in zip(shp, cshape)],
-                 "sparse_core": rng.random() < 0.25}
+            T = {"cshape": cshape, "core": core, "factors": [rand_matrix(rng, d, c) for d, c in zip(shp, cshape)]}
             cases.append(Case("permute_t", {"shape": shp, "T": T, "p": p}, nt and any(core)))
+            # Tucker holder whose core is an sptensor (ttensor.permute -> sptensor.permute on the core)
+            cshape2 = [rng.randint(1, 2) for _ in shp]
+            core2 = tgen.rand_dense(rng, cshape2, rng.choice([0.0, 0.4, 0.7, 1.0]))
+            csubs, cvals = tgen.dense_to_sparse(cshape2, core2, rng, rng.choice(["sorted", "reversed", "random"]))
+            Ts = {"cshape": cshape2, "csubs": csubs, "cvals": cvals,
+                  "factors": [rand_matrix(rng, d, c) for d, c in zip(shp, cshape2)]}
+            cases.append(Case("permute_st", {"shape": shp, "T": Ts, "p": p}, nt and bool(cvals)))
     # ---------------- dense / sparse reshape over every factorisation
     counts = list(range(1, 49))
     for n in counts:
@@ -145,12 +157,24 @@ def gen_cases(rng, tier):
                             tgt = [1]
                         for fill in ([0.0, 0.5, 1.0] if big else [rng.choice([0.0, 0.4, 1.0])]):
                             subs, vals = rand_sparse(rng, shp, fill)
-                            cases.append(Case("reshape_sp", {"shape": shp, "subs": subs, "vals": vals, "new": tgt, "old": old},
+                            nt = bool(vals) and math.prod(shp) > 1
+                            cases.append(Case("reshape_sp", {"shape": shp, "subs": subs, "vals": vals, "new": tgt, "old": old}, nt))
+                            # reshape ; reshape the trailing modes back ; restore the mode order  == the stored object
+                            subs, vals = rand_sparse(rng, shp, fill)
+                            cases.append(Case("reshape_sp_rt", {"shape": shp, "subs": subs, "vals": vals, "new": tgt, "old": old},
                                               bool(vals) and math.prod(shp) > 1))
-                if r == 1:     # the documented bare-int form of old_modes
-                    subs, vals = rand_sparse(rng, shp, 0.6)
-                    cases.append(Case("reshape_sp", {"shape": shp, "subs": subs, "vals": vals, "new": [shp[comb[0]]],
-                                                     "old": [comb[0]], "old_int": True}, bool(vals)))
+                            # the same data as tensor and as sptensor: dense route against sparse subset reshape
+                            data = tgen.rand_dense(rng, shp, fill)
+                            subs, vals = tgen.dense_to_sparse(shp, data, rng, rng.choice(["sorted", "reversed", "random"]))
+                            cases.append(Case("reshape_agree", {"shape": shp, "data": data, "subs": subs, "vals": vals,
+                                                                "new": tgt, "old": old}, any(data) and math.prod(shp) > 1))
+                if r == 1:     # the documented bare-int form of old_modes (N-C07-2, repaired): must behave like [mode]
+                    m = shp[comb[0]]
+                    facs = ordered_factorisations(m) if m > 1 else [[1]]
+                    for tgt in [[m], with_ones(rng, rng.choice(facs))] + ([rng.choice(facs)] if len(facs) > 1 else []):
+                        subs, vals = rand_sparse(rng, shp, rng.choice([0.0, 0.6, 1.0]))
+                        cases.append(Case("reshape_sp", {"shape": shp, "subs": subs, "vals": vals, "new": tgt,
+                                                         "old": [comb[0]], "old_int": True}, bool(vals)))
     # ---------------- squeeze
     for shp in tgen.shapes_upto(8) + ([tuple(tgen.rand_shape(rng, maxn=5, maxcells=48)) for _ in range(40)] if big else
                                       [(2, 1, 3, 1, 2), (1, 1, 1, 1, 1), (1, 5, 1), (3, 1, 1, 4)]):
@@ -163,6 +187,28 @@ def gen_cases(rng, tier):
                 cases.append(Case("squeeze_d", {"shape": shp, "data": data}, nt))
             subs, vals = tgen.dense_to_sparse(shp, data, rng, rng.choice(["sorted", "reversed", "random"]))
             cases.append(Case("squeeze_sp", {"shape": shp, "subs": subs, "vals": vals}, nt))
+    # ---------------- Kruskal / Tucker holders: reshape and squeeze exist only through full()
+    hshapes = [[2, 3], [3, 1, 2], [2, 1, 3], [1, 4], [1, 1], [2, 2, 3], [1, 3, 1, 2], [4, 3], [1], [2, 3, 2]]
+    if big:
+        hshapes += [tgen.rand_shape(rng, maxn=4, maxcells=36) for _ in range(20)]
+    for shp in hshapes:
+        n = math.prod(shp)
+        facs = ordered_factorisations(n) if n > 1 else [[1]]
+        for _ in range(3 if big else 1):
+            R = rng.choice([1, 2, 3])
+            K = {"weights": [rng.choice([-2, -1, 1, 2, 3]) for _ in range(R)], "factors": [rand_matrix(rng, d, R) for d in shp]}
+            cshape = [rng.randint(1, 2) for _ in shp]
+            core = tgen.rand_dense(rng, cshape, rng.choice([0.5, 1.0]))
+            T = {"cshape": cshape, "core": core, "factors": [rand_matrix(rng, d, c) for d, c in zip(shp, cshape)]}
+            csubs, cvals = tgen.dense_to_sparse(cshape, core, rng, rng.choice(["sorted", "reversed", "random"]))
+            Ts = {"cshape": cshape, "csubs": csubs, "cvals": cvals, "factors": T["factors"]}
+            for tgt in [rng.choice(facs), with_ones(rng, rng.choice(facs))]:
+                cases.append(Case("reshape_full", {"shape": shp, "holder": "k", "H": K, "new": tgt}, n > 1))
+                cases.append(Case("reshape_full", {"shape": shp, "holder": "t", "H": T, "new": tgt}, n > 1 and any(core)))
+                cases.append(Case("reshape_full", {"shape": shp, "holder": "st", "H": Ts, "new": tgt}, n > 1 and any(core)))
+            cases.append(Case("squeeze_full", {"shape": shp, "holder": "k", "H": K}, n > 1 and 1 in shp))
+            cases.append(Case("squeeze_full", {"shape": shp, "holder": "t", "H": T}, n > 1 and 1 in shp and any(core)))
+            cases.append(Case("squeeze_full", {"shape": shp, "holder": "st", "H": Ts}, n > 1 and 1 in shp and any(core)))
     # ---------------- malformed stream: rejected requests must be rejected by both
     for _ in range(60 if big else 20):
         shp = tgen.rand_shape(rng, maxn=4, maxcells=24)
@@ -174,6 +220,11 @@ def gen_cases(rng, tier):
         subs, vals = rand_sparse(rng, shp, 0.5)
         cases.append(Case("permute_d", {"shape": shp, "data": data, "p": bad}, True))
         cases.append(Case("permute_sp", {"shape": shp, "subs": subs, "vals": vals, "p": bad}, True))
+        cshape = [rng.randint(1, 2) for _ in shp]
+        core = tgen.rand_dense(rng, cshape, 1.0)
+        csubs, cvals = tgen.dense_to_sparse(cshape, core)
+        cases.append(Case("permute_st", {"shape": shp, "p": bad, "T": {"cshape": cshape, "csubs": csubs, "cvals": cvals,
+                          "factors": [rand_matrix(rng, d, c) for d, c in zip(shp, cshape)]}}, True))
         tgt = [math.prod(shp) + rng.choice([1, 2])]
         cases.append(Case("reshape_d", {"shape": shp, "data": data, "new": tgt}, True))
         cases.append(Case("reshape_sp", {"shape": shp, "subs": subs, "vals": vals, "new": tgt, "old": None}, True))
@@ -189,27 +240,24 @@ def _mk_k(ttb, np, K, shape):
 
 def _mk_t(ttb, np, T, shape):
     core = tgen.mk_tensor(ttb, np, T["cshape"], T["core"])
-    if T.get("sparse_core"):
-        subs, vals = tgen.dense_to_sparse(T["cshape"], T["core"])
-        core = tgen.mk_sptensor(ttb, np, T["cshape"], subs, vals)
     fm = [np.array(f, dtype=float).reshape((d, c)) for f, d, c in zip(T["factors"], shape, T["cshape"])]
     return ttb.ttensor(core, [f.copy() for f in fm], copy=True)
 
 
-def _obs_core(np, core):
-    """Tucker core -> dense observation; a sparse core is expanded from its RAW coordinate list by plain loops"""
-    if hasattr(core, "subs"):
-        o = tgen.obs_sparse(np, core)
-        shape = o["shape"]
-        data = [0] * math.prod(shape)
-        for s, v in zip(o["subs"], o["vals"]):
-            k, mul = 0, 1
-            for x, d in zip(s, shape):
-                k += x * mul
-                mul *= d
-            data[k] = v
-        return {"shape": shape, "data": data, "sparse": True}
-    return tgen.obs_dense(np, core)
+def _mk_st(ttb, np, T, shape):
+    """Tucker holder with an sptensor core"""
+    core = tgen.mk_sptensor(ttb, np, T["cshape"], T["csubs"], T["cvals"])
+    fm = [np.array(f, dtype=float).reshape((d, c)) for f, d, c in zip(T["factors"], shape, T["cshape"])]
+    return ttb.ttensor(core, [f.copy() for f in fm], copy=True)
+
+
+def _mk_holder(ttb, np, a):
+    return {"k": _mk_k, "t": _mk_t, "st": _mk_st}[a["holder"]](ttb, np, a["H"], a["shape"])
+
+
+def _rs_order(N, old):
+    keep = [k for k in range(N) if k not in old]
+    return keep, keep + list(old)
 
 
 def run_impl(c):
@@ -230,7 +278,39 @@ def run_impl(c):
         if c.op == "permute_t":
             T = _mk_t(ttb, np, a["T"], a["shape"])
             R = T.permute(np.array(a["p"], dtype=int))
-            return {"ok": {"core": _obs_core(np, R.core), "factors": [tgen.obs_matrix(np, f) for f in R.factor_matrices]}}
+            return {"ok": {"core": tgen.obs_dense(np, R.core), "factors": [tgen.obs_matrix(np, f) for f in R.factor_matrices]}}
+        if c.op == "permute_st":
+            T = _mk_st(ttb, np, a["T"], a["shape"])
+            R = T.permute(np.array(a["p"], dtype=int))
+            if not isinstance(R.core, ttb.sptensor):
+                return {"exc": "CoreNotSparse", "msg": type(R.core).__name__}
+            return {"ok": {"core": tgen.obs_sparse(np, R.core), "factors": [tgen.obs_matrix(np, f) for f in R.factor_matrices]}}
+        if c.op == "reshape_sp_rt":
+            S = tgen.mk_sptensor(ttb, np, a["shape"], a["subs"], a["vals"])
+            keep, q = _rs_order(len(a["shape"]), a["old"])
+            R = S.reshape(tuple(a["new"]), np.array(a["old"], dtype=int))
+            R2 = R.reshape(tuple(a["shape"][k] for k in a["old"]), np.arange(len(keep), len(keep) + len(a["new"]), dtype=int))
+            inv = [q.index(k) for k in range(len(q))]          # argsort(keep ++ old), by plain search
+            return {"ok": tgen.obs_sparse(np, R2.permute(np.array(inv, dtype=int)))}
+        if c.op == "reshape_agree":
+            keep, q = _rs_order(len(a["shape"]), a["old"])
+            out = {}
+            try:
+                D = tgen.mk_tensor(ttb, np, a["shape"], a["data"]).permute(np.array(q, dtype=int))
+                out["dense"] = tgen.obs_dense(np, D.reshape(tuple([a["shape"][k] for k in keep] + list(a["new"]))))
+            except Exception as ex:
+                out["dense_exc"] = type(ex).__name__
+            try:
+                S = tgen.mk_sptensor(ttb, np, a["shape"], a["subs"], a["vals"])
+                out["sparse"] = tgen.obs_sparse(np, S.reshape(tuple(a["new"]), np.array(a["old"], dtype=int)))
+            except Exception as ex:
+                out["sparse_exc"] = type(ex).__name__
+            return out
+        if c.op == "reshape_full":
+            return {"ok": tgen.obs_dense(np, _mk_holder(ttb, np, a).full().reshape(tuple(a["new"])))}
+        if c.op == "squeeze_full":
+            R = _mk_holder(ttb, np, a).full().squeeze()
+            return {"ok": tgen.obs_dense(np, R)} if isinstance(R, ttb.tensor) else {"scalar": tgen.exact(R)}
         if c.op == "reshape_d":
             return {"ok": tgen.obs_dense(np, tgen.mk_tensor(ttb, np, a["shape"], a["data"]).reshape(tuple(a["new"])))}
         if c.op == "reshape_sp":
@@ -322,6 +402,55 @@ def coq_check(c, o):
             return "false"
         O = f"(mkT {tgen.gdense(ob['core']['shape'], ob['core']['data'])} {_gmat_list(ob['factors'])})"
         return f"ot_ok (permute_t 0%Z {G} {gnlist(a['p'])}) (Some {O})"
+    if c.op == "permute_st":
+        T = a["T"]
+        G = f"(mkST {tgen.gsparse(T['cshape'], T['csubs'], T['cvals'])} {_gmat_list(T['factors'])})"
+        if exc:
+            return f"ost_ok (permute_st {G} {gnlist(a['p'])}) None" if o["exc"] != "CoreNotSparse" else "false"
+        ob = o["ok"]
+        oc = ob["core"]
+        if not tgen.all_int(oc["vals"]) or oc["nnz"] != len(oc["subs"]) or not all(tgen.all_int(r) for f in ob["factors"] for r in f):
+            return "false"
+        O = f"(mkST {tgen.gsparse(oc['shape'], oc['subs'], oc['vals'])} {_gmat_list(ob['factors'])})"
+        return f"ost_ok (permute_st {G} {gnlist(a['p'])}) (Some {O})"
+    if c.op == "reshape_sp_rt":
+        S = tgen.gsparse(a["shape"], a["subs"], a["vals"])
+        if exc:
+            return "false"            # generated requests are admissible: the round trip must not raise
+        ob = o["ok"]
+        if not tgen.all_int(ob["vals"]) or ob["nnz"] != len(ob["subs"]):
+            return "false"
+        return (f"rt_ok {S} (reshape_sp_rt {S} {gnlist(a['new'])} {gnlist(a['old'])}) "
+                f"(Some {tgen.gsparse(ob['shape'], ob['subs'], ob['vals'])})")
+    if c.op == "reshape_agree":
+        if "dense" not in o or "sparse" not in o:
+            return "false"
+        od, os_ = o["dense"], o["sparse"]
+        if not tgen.all_int(od["data"]) or not tgen.all_int(os_["vals"]) or os_["nnz"] != len(os_["subs"]):
+            return "false"
+        T = tgen.gdense(a["shape"], a["data"])
+        S = tgen.gsparse(a["shape"], a["subs"], a["vals"])
+        return (f"agree_ok (reshape_d_route {T} {gnlist(a['new'])} {gnlist(a['old'])}) (Some {tgen.gdense(od['shape'], od['data'])}) "
+                f"(reshape_sp {S} {gnlist(a['new'])} {gnlist(a['old'])}) (Some {tgen.gsparse(os_['shape'], os_['subs'], os_['vals'])})")
+    if c.op in ("reshape_full", "squeeze_full"):
+        H = a["H"]
+        if a["holder"] == "k":
+            F = f"(zfull_k {_gk_shaped(H, a['shape'])})"
+        elif a["holder"] == "t":
+            F = f"(zfull_t (mkT {tgen.gdense(H['cshape'], H['core'])} {_gmat_list(H['factors'])}))"
+        else:
+            F = f"(zfull_st (mkST {tgen.gsparse(H['cshape'], H['csubs'], H['cvals'])} {_gmat_list(H['factors'])}))"
+        if exc:
+            return "false"
+        if c.op == "reshape_full":
+            if not tgen.all_int(o["ok"]["data"]):
+                return "false"
+            return f"od_ok (reshape_d 0%Z {F} {gnlist(a['new'])}) (Some {tgen.gdense(o['ok']['shape'], o['ok']['data'])})"
+        if "scalar" in o:
+            return f"sqd_ok (squeeze_d 0%Z {F}) (SqScalar {gz(o['scalar'])})" if isinstance(o["scalar"], int) else "false"
+        if not tgen.all_int(o["ok"]["data"]):
+            return "false"
+        return f"sqd_ok (squeeze_d 0%Z {F}) (SqT {tgen.gdense(o['ok']['shape'], o['ok']['data'])})"
     if c.op == "squeeze_d":
         T = tgen.gdense(a["shape"], a["data"])
         if exc:
@@ -392,6 +521,25 @@ def _den_t(cshape, core, factors, i):
     return tot
 
 
+def _den_st(cshape, cdict, factors, i):
+    tot = 0
+    for j, v in cdict.items():
+        t = v
+        for f, x, y in zip(factors, i, j):
+            t *= f[x][y]
+        tot += t
+    return tot
+
+
+def _holder_den(a, i):
+    H = a["H"]
+    if a["holder"] == "k":
+        return _den_k(H, i)
+    if a["holder"] == "t":
+        return _den_t(H["cshape"], H["core"], H["factors"], i)
+    return _den_st(H["cshape"], {tuple(s): v for s, v in zip(H["csubs"], H["cvals"])}, H["factors"], i)
+
+
 def _valid_perm(p, N):
     return sorted(p) == list(range(N))
 
@@ -437,6 +585,18 @@ def oracle(c, o):
                 if _den_k(ob, i) != _den_k(a["K"], src(i)):
                     return f"entry {i} of the result is not entry {src(i)} of the argument"
             return None
+        if c.op == "permute_st":
+            if [len(f) for f in ob["factors"]] != nshape:
+                return "wrong shape"
+            T = a["T"]
+            din = {tuple(s): v for s, v in zip(T["csubs"], T["cvals"])}
+            d = _sp_dict(ob["core"])
+            if d is None or ob["core"]["nnz"] != len(din) or ob["core"]["shape"] != [T["cshape"][k] for k in p]:
+                return "core ill-formed / wrong core shape / wrong nnz"
+            for i in tgen.all_subs(nshape):
+                if _den_st(ob["core"]["shape"], d, ob["factors"], i) != _den_st(T["cshape"], din, T["factors"], src(i)):
+                    return f"entry {i} of the result is not entry {src(i)} of the argument"
+            return None
         if c.op == "permute_t":
             if [len(f) for f in ob["factors"]] != nshape:
                 return "wrong shape"
@@ -472,6 +632,51 @@ def oracle(c, o):
             t = [s[k] for k in keep] + _unlin(a["new"], _lin(oshape, [s[k] for k in old]))
             want[tuple(t)] = v
         return None if want == d else "an entry did not move to kept ++ ind2sub(new, sub2ind(old))"
+    if c.op == "reshape_sp_rt":
+        if "exc" in o:
+            return f"round trip of an admissible subset reshape raised: {o['exc']} {o.get('msg')}"
+        d = _sp_dict(o["ok"])
+        din = {tuple(s): v for s, v in zip(a["subs"], a["vals"])}
+        if d is None or o["ok"]["shape"] != shp or d != din:
+            return "reshape ; reshape back ; restore mode order did not return the original tensor"
+        return None
+    if c.op == "reshape_agree":
+        old = a["old"]
+        keep = [k for k in range(N) if k not in old]
+        oshape = [shp[k] for k in old]
+        nshape = [shp[k] for k in keep] + a["new"]
+        want = [0] * math.prod(nshape)
+        for s in tgen.all_subs(shp):
+            t_ = [s[k] for k in keep] + _unlin(a["new"], _lin(oshape, [s[k] for k in old]))
+            want[_lin(nshape, t_)] = a["data"][_lin(shp, s)]
+        if "dense" not in o or "sparse" not in o:
+            return f"admissible request raised: {o.get('dense_exc')} / {o.get('sparse_exc')}"
+        d = _sp_dict(o["sparse"])
+        if d is None or o["sparse"]["shape"] != nshape:
+            return "sparse result ill-formed / wrong shape"
+        got = [d.get(tuple(i), 0) for i in tgen.all_subs(nshape)]
+        if got != want:
+            return "sparse subset reshape: an entry did not move to kept ++ ind2sub(new, sub2ind(old))"
+        if o["dense"]["shape"] != nshape or o["dense"]["data"] != want:
+            return "dense route permute(keep ++ old).reshape(kept ++ new) differs from the index formula"
+        return None
+    if c.op == "reshape_full":
+        if "exc" in o:
+            return f"reshape of full() raised {o['exc']}: {o.get('msg')}"
+        want = [_holder_den(a, i) for i in tgen.all_subs(shp)]
+        if o["ok"]["shape"] != a["new"] or o["ok"]["data"] != want:
+            return "reshape of full(): F-order value list or shape differs from the holder's entries"
+        return None
+    if c.op == "squeeze_full":
+        if "exc" in o:
+            return f"squeeze of full() raised {o['exc']}: {o.get('msg')}"
+        want = [_holder_den(a, i) for i in tgen.all_subs(shp)]
+        nshape = [d for d in shp if d > 1]
+        if not nshape:
+            return None if o.get("scalar") == want[0] else "scalar result differs from the single entry"
+        if "ok" not in o or o["ok"]["shape"] != nshape or o["ok"]["data"] != want:
+            return "squeeze of full() differs from the holder's entries"
+        return None
     if c.op in ("squeeze_d", "squeeze_sp"):
         if "exc" in o:
             return f"squeeze raised {o['exc']}: {o.get('msg')}"
@@ -498,31 +703,6 @@ def oracle(c, o):
 
 
 # ---------------------------------------------------------------------------------------- known findings
-TRIGGERS = {
-    "squeeze_empty_all_singleton": lambda c: c.op == "squeeze_sp" and all(d == 1 for d in c.args["shape"]) and not c.args["subs"],
-    "reshape_old_modes_int": lambda c: c.op == "reshape_sp" and bool(c.args.get("old_int")),
-}
-
-
-def _w_squeeze():
-    import pyttb as ttb
-    try:
-        r = ttb.sptensor(shape=(1, 1, 1)).squeeze()
-        return None if r == 0 else f"returned {r!r}"
-    except Exception as ex:
-        return f"sptensor(shape=(1,1,1)).squeeze() raised {type(ex).__name__}: {ex}"
-
-
-def _w_reshape_int():
-    import numpy as np
-    import pyttb as ttb
-    try:
-        S = ttb.sptensor(np.array([[0, 0, 0], [1, 0, 2]]), np.array([[5.0], [6.0]]), (2, 1, 3))
-        R = S.reshape((3,), 2)
-        ok = tuple(int(x) for x in R.shape) == (2, 1, 3) and sorted(map(tuple, R.subs.tolist())) == [(0, 0, 0), (1, 0, 2)]
-        return None if ok else f"wrong result shape={R.shape} subs={R.subs.tolist()}"
-    except Exception as ex:
-        return f"S.reshape((3,), 2) raised {type(ex).__name__}: {ex}"
-
-
-WITNESSES = {"N-C07-1": _w_squeeze, "N-C07-2": _w_reshape_int}
+# none open.  N-C07-1 (squeeze of an empty all-singleton sptensor) and N-C07-2 (int old_modes) are repaired in /repo;
+# their input classes stay in the stream (squeeze_sp over every all-singleton shape with fill 0; reshape_sp with
+# "old_int") and are no longer attributed: a regression is reported as a VIOLATION.
